@@ -790,6 +790,19 @@ def check_probe_skip(ctx):
                     elif isinstance(s_, (ast.With, ast.Try)):
                         rec(s_.body, guards)
             rec(loop.body, [])
+            # ... and the loop runs over the probe rows it was given: a conditional replacement of the iterated table
+            # (`if <shortcut>: rtable = []`) steps over every row at once - the allow_empty pairs included
+            it = loop.iter
+            if isinstance(it, ast.Name):
+                for a_ in walk_own(f.node):
+                    if isinstance(a_, ast.Assign) and any(isinstance(t, ast.Name) and t.id == it.id for t in a_.targets) \
+                            and a_.lineno < loop.lineno and not any(isinstance(x, ast.Name) and x.id == it.id for x in ast.walk(a_.value)):
+                        cond = Conds(f.node, None).of(a_)
+                        uncond = cond is TRUE or show(cond) in ('True', 'true', '')
+                        ctx.check('R-CAND/probe-skip', f, 'probe rows replaced', uncond,
+                                  'the rows the probe loop iterates over (`%s`) are replaced by `%s` under `%s` before the loop: for '
+                                  'those inputs no right row is probed and no allow_empty pair is emitted'
+                                  % (it.id, U(a_.value)[:40], show(cond)[:80]), a_, sample='`%s` not replaced conditionally' % it.id)
     ctx.floor('R-CAND/probe-skip', n, 7, 'probe loops around find_candidates')
 
 
